@@ -193,7 +193,8 @@ class World:
             explicit_new = len(self.objs) > n0
             seeds = []
             for o in left:
-                self.reg(o); seeds.append({'k': 'seed', 'cls': self.cidx(o), 'pk': self.pkl(o)})
+                self.reg(o)
+                if o._pkval_ is not None: seeds.append({'k': 'seed', 'cls': self.cidx(o), 'pk': self.pkl(o)})
             res['mops'] = (res['mops'] + seeds) if explicit_new else (seeds + res['mops'])
             res['side_seeds'] = len(seeds)
         return res
@@ -596,11 +597,11 @@ def first_ops(rng, w):
     return ops
 
 
-def run_history(spec, pop_seed, ops=None, rng=None, nops=0, ctx=None):
+def run_history(spec, pop_seed, ops=None, rng=None, nops=0, ctx=None, dbfile=None):
     """runs a history on fresh real classes; `ops` given: replay exactly; else generate `nops` calls with `rng`.
     returns (world, trace) with trace = [(op, result, snapshot, oracle findings)]"""
-    w = World(spec)
-    w.populate(random.Random(pop_seed))
+    w = World(spec, dbfile=dbfile)
+    if pop_seed is not None: w.populate(random.Random(pop_seed))       # None: the history starts on an empty database
     trace = []
     with db_session:
         w.raw()
@@ -746,8 +747,96 @@ def histories(ctx, rng, nhist, nops):
         compare(ctx, w, spec, pop_seed, trace, steps)
 
 
+def _spec(n, unique, ckeys=(), pk='explicit', parents=(None,), with_h=False):
+    return {'nattrs': n, 'unique': list(unique), 'ckeys': [list(k) for k in ckeys], 'pk': pk, 'parents': list(parents), 'with_h': with_h}
+
+DIRECTED = [
+    # a constructor that fails AFTER the identity map was touched (repaired in /repo, 19b6b9f): no zombie under its primary key
+    ('late-failure', _spec(1, [True], with_h=True),
+     [{'k': 'create', 'cls': 0, 'kw': {'id': 1, 'a0': 1}}, {'k': 'create', 'cls': 0, 'kw': {'id': 2, 'a0': 2}, 'steal': 0},
+      {'k': 'get', 'cls': 0, 'pk': [2], 'kw': [], 'how': 'get'}, {'k': 'create', 'cls': 0, 'kw': {'id': 2, 'a0': 2}}]),
+    # a refused set() (repaired in /repo, 47bba9f): the first key was already moved when the second one conflicts
+    ('refused-set', _spec(2, [True, True]),
+     [{'k': 'create', 'cls': 0, 'kw': {'id': 1, 'a0': 1, 'a1': 1}}, {'k': 'create', 'cls': 0, 'kw': {'id': 2, 'a0': 2, 'a1': 2}},
+      {'k': 'set', 'o': 1, 'changes': [[0, 7], [1, 1]], 'via': 'set'}, {'k': 'create', 'cls': 0, 'kw': {'id': 3, 'a0': 7}},
+      {'k': 'get', 'cls': 0, 'pk': None, 'kw': [[0, 2]]}]),
+    # the id the database generates is already used by a pending object with an explicit id
+    ('auto-id-collision', _spec(1, [False], pk='auto'),
+     [{'k': 'create', 'cls': 0, 'kw': {}}, {'k': 'create', 'cls': 0, 'kw': {'id': 1}}, {'k': 'flush'}]),
+    # unpickling after the object was deleted and flushed; the primary key is free again and taken by the unpickled object
+    ('unpickle-after-delete', _spec(1, [True]),
+     [{'k': 'create', 'cls': 0, 'kw': {'id': 1, 'a0': 5}}, {'k': 'flush'}, {'k': 'pickle', 'o': 0}, {'k': 'delete', 'o': 0}, {'k': 'flush'},
+      {'k': 'create', 'cls': 0, 'kw': {'id': 2, 'a0': 5}}, {'k': 'unpickle', 'd': 0}, {'k': 'create', 'cls': 0, 'kw': {'id': 1}}]),
+    # a unique value handed from one object to another; a composite key completed from None; delete frees both
+    ('move-values', _spec(3, [True, False, False], ckeys=[[1, 2]]),
+     [{'k': 'create', 'cls': 0, 'kw': {'id': 1, 'a0': 5, 'a1': 1}}, {'k': 'create', 'cls': 0, 'kw': {'id': 2, 'a0': 6, 'a1': 1, 'a2': 2}},
+      {'k': 'set', 'o': 0, 'changes': [[2, 2]], 'via': 'attr'}, {'k': 'set', 'o': 1, 'changes': [[0, None]], 'via': 'attr'},
+      {'k': 'set', 'o': 0, 'changes': [[0, 6]], 'via': 'attr'}, {'k': 'delete', 'o': 1}, {'k': 'set', 'o': 0, 'changes': [[2, 2]], 'via': 'set'},
+      {'k': 'get', 'cls': 0, 'pk': None, 'kw': [[1, 1], [2, 2]]}, {'k': 'proxy', 'o': 0}]),
+]
+
+
+def directed(ctx):
+    batch = []
+    for name, spec, ops in DIRECTED:
+        w, trace = run_history(spec, None, ops=ops)
+        ctx.case({'directed': name}, nontrivial=True, kind='directed')
+        for op, res, snap, bad in trace:
+            ctx.count('directed:%s:%s:%s' % (name, op['k'], res['err'] or 'ok'))
+            if bad: report(ctx, spec, None, [t[0] for t in trace], bad[0][0], bad[0][1])
+        batch.append((w, spec, None, trace)); w.close()
+    if ctx.driver.ok:
+        outs = ctx.driver('C11', [{'op': 'run', 'schema': w.model_schema, 'groups': [t[1]['mops'] for t in trace]} for w, _, _, trace in batch])
+        for (w, spec, pop_seed, trace), out in zip(batch, outs):
+            if out.get('steps') is None: ctx.divergence('driver error', {'spec': spec, 'ops': [t[0] for t in trace]}, model=out)
+            else: compare(ctx, w, spec, pop_seed, trace, out['steps'])
+
+
+def witness(ctx):
+    """`Props/C11.lean: C11_step_full_false` on the real code: a row load refused with TransactionIntegrityError after it
+    already moved an index entry.  Needs a CONCURRENT writer (outside the property's histories), hence a file database."""
+    import os, sqlite3, ponyutil
+    wd = ponyutil.workdir('c11')
+    try:
+        spec = _spec(2, [True, True])
+        w = World(spec, dbfile=os.path.join(wd, 'w.sqlite'))
+        with db_session:
+            w.E0(id=1, a0=1, a1=1); w.E0(id=2, a0=2, a1=2)
+        ext = sqlite3.connect(os.path.join(wd, 'w.sqlite'), timeout=0, isolation_level=None)
+        with db_session:
+            x = w.E0[1]; w.reg(x)
+            ext.execute('update "%s" set a1 = 5 where id = 1' % w.table)
+            ext.execute('update "%s" set a0 = 8, a1 = 1 where id = 2' % w.table)
+            err, _ = w.call(lambda: w.E0[2])
+            for o in sorted((o for o in w.cache().objects if isinstance(o, w.E0) and w.idx(o) < 0), key=w.pkl): w.reg(o)
+            snap = w.snapshot()
+            bad = w.oracle([])
+            rollback()
+        ext.close(); w.close()
+        ctx.case({'witness': 'load-conflict'}, nontrivial=True, kind='witness')
+        reproduced = err == 'TransactionIntegrityError' and any(b[0] == 'key-index-differs' for b in bad)
+        ctx.count('witness:load-conflict-leaves-half-updated-index:' + ('reproduced' if reproduced else 'NOT-reproduced(%s)' % err))
+        ctx.extra['witness_load_conflict'] = {'outcome': err, 'indexes_after': snap['ixs'], 'objects_after': [{'pk': o['pk'], 'vals': o['vals']} for o in snap['objs']],
+                                              'oracle': [b[0] for b in bad], 'note': 'needs a concurrent writer: outside the histories the property quantifies over; guard of C11_step'}
+        if not reproduced: ctx.note('the witness of C11_step_full_false is no longer reproduced by the real code (outcome %s)' % err)
+        if ctx.driver.ok:
+            rows = [{'k': 'load', 'cls': 0, 'pk': [1], 'vals': [1, 1], 'used': [], 'unpickling': False}, {'k': 'load', 'cls': 0, 'pk': [2], 'vals': [8, 1], 'used': [], 'unpickling': False}]
+            out = ctx.driver('C11', [{'op': 'run', 'schema': w.model_schema, 'groups': [[r] for r in rows]}])[0]
+            st = out.get('steps')
+            if st is None: ctx.divergence('driver error on the witness', rows, model=out)
+            else:
+                m = st[-1]
+                if m['err'] != err or [sorted(x) for x in m['ixs']] != snap['ixs'] or sorted(m['pk']) != snap['pk'] or m['inv']:
+                    ctx.divergence('model and real code differ on the load-conflict witness', rows, model=[m['err'], m['ixs'], m['inv']], impl=[err, snap['ixs']])
+                else: ctx.count('witness:model-agrees')
+    finally:
+        ponyutil.rmtree(wd)
+
+
 def run(ctx):
-    histories(ctx, ctx.rng, ctx.scale(150, 3000), ctx.scale(16, 24))
+    directed(ctx)
+    witness(ctx)
+    histories(ctx, ctx.rng, ctx.scale(350, 6000), ctx.scale(16, 24))
 
 
 def replay(ctx, data):
